@@ -68,8 +68,18 @@ FlagsOf(info) ==
 
 \* a vector of the documented parameterised space
 InParamSpace(v) == Len(v) = 6 /\ \A i \in 1..6 : v[i] >= 0 /\ v[i] < ParamNvec[i]
-ActOfEv(x) ==
-    CASE x.enc \in {"int", "npint", "np0d"} -> FlatAt(x.idx + 1)
+\* C11 does not fix the ORDER of the flat action list, only its content and that every environment of a scenario
+\* uses the same index -> action mapping.  An environment whose list is a rearrangement of the specification's
+\* FlatAt logs the rearrangement (adv.perm[i] = specification index of the implementation's i-th action, proposed by
+\* the harness from the actions' kind / name / target, verified here and in ActionsClauses); flat indices are read
+\* through it.  On the pinned tree the order is FlatAt's and no perm is logged.
+IdPerm == [i \in 1..NActions |-> i]
+IsPerm(p) == Len(p) = NActions /\ {p[i] : i \in 1..Len(p)} = 1..NActions
+PermOfCreate(ev) == IF "perm" \in DOMAIN ev.adv /\ IsPerm(ev.adv.perm) THEN ev.adv.perm ELSE IdPerm
+PermOf(e) == IF e \in DOMAIN mode THEN mode[e].perm ELSE IdPerm
+ActOfEv(x, e) ==
+    CASE x.enc \in {"int", "npint", "np0d"} ->
+           IF x.idx + 1 \in 1..NActions THEN FlatAt(PermOf(e)[x.idx + 1]) ELSE FlatAt(x.idx + 1)
       [] x.enc \in {"list", "tuple", "ndarray"} -> IF InParamSpace(x.vec) THEN DecodeParam(x.vec) ELSE NoopAct
       [] OTHER -> x.obj
 
@@ -126,6 +136,10 @@ CreateClauses(ev, rows) ==
        <<"C11", "size_as_advertised", ev.adv.n_actions = NActions /\ ev.adv.scn_actions = NActions>>,
        <<"C11", "param_space_dimensions", (~ev.modes.fa) => ev.adv.nvec = ParamNvec>>,
        <<"C11", "flat_space_size", ev.modes.fa => ev.adv.space_n = NActions>>,
+       <<"C11", "flat_list_is_a_rearrangement_of_the_scenarios_actions",
+         "perm" \in DOMAIN ev.adv => IsPerm(ev.adv.perm)>>,
+       <<"C11", "same_index_mapping_for_every_environment",
+         \A e2 \in DOMAIN mode : mode[e2].perm = PermOfCreate(ev)>>,
        <<"C08", "initial_observation",
          /\ \A h \in Hosts : o[h] = InitObsRow(InitSt, ev.modes.fo, h)
          /\ ev.obs.aux = ZeroRow>>,
@@ -145,7 +159,7 @@ Create ==
        /\ abs' = Put(abs, e, IF RowsWellFormed(rows) THEN Decode(rows) ELSE InitSt)
        /\ steps' = Put(steps, e, 0)
        /\ mode' = Put(mode, e, [fo |-> ev.modes.fo, fa |-> ev.modes.fa, f1 |-> ev.modes.f1,
-                               low |-> ev.adv.low, high |-> ev.adv.high])
+                               low |-> ev.adv.low, high |-> ev.adv.high, perm |-> PermOfCreate(ev)])
        /\ ndec' = Put(ndec, e, 0)
        /\ paidVal' = Put(paidVal, e, {})
        /\ paidDisc' = Put(paidDisc, e, {})
@@ -318,7 +332,7 @@ StepEv ==
            preSt == IF Len(ev.pre_rows) = 0 THEN abs[e]
                     ELSE IF okPre THEN Decode(preRows) ELSE abs[e]
            postSt == IF okPost THEN Decode(postRows) ELSE preSt
-           a == ActOfEv(ev.a)
+           a == ActOfEv(ev.a, e)
            E == EOfEv(ev, a, preSt, postSt, postRows)
            x == Trans(preSt, a, E.luck)
            failed == Failed(StepClauses(E) \o RawClauses(ev, preRows, postRows)
@@ -367,10 +381,10 @@ GoalEv ==
 Proj(a) == a    \* an implementation Action object is logged with the fields of NASimCore!Act
 
 ActionsClauses(ev) ==
-    LET L == ev.list IN
+    LET L == ev.list  p == PermOf(ev.env) IN
     << <<"C11", "size_as_advertised", Len(L) = NActions>>,
        <<"C11", "flat_list_equals_spec",
-         Len(L) = NActions /\ \A k \in 1..NActions : L[k] = FlatAt(k)>>,
+         Len(L) = NActions /\ \A k \in 1..NActions : L[k] = FlatAt(p[k])>>,
        <<"C11", "no_duplicates", Cardinality(SeqSet(L)) = Len(L)>> >>
 
 ActionsEv ==
@@ -412,7 +426,7 @@ MaskEv ==
                         <<"C11", "mask_iff_discovered",
                           Len(ev.mask) = NActions /\
                           \A k \in 1..NActions :
-                             ev.mask[k] = (IF st[FlatAt(k).target].disc THEN 1 ELSE 0)>>,
+                             ev.mask[k] = (IF st[FlatAt(PermOf(ev.env)[k]).target].disc THEN 1 ELSE 0)>>,
                         <<"C13", "state_not_modified_between_calls", Len(ev.pre_rows) = 0>> >>), ev.i)
     /\ UNCHANGED <<raw, abs, initRaw, steps, mode, paidVal, paidDisc, prev, grp, ndec, hist>>
     /\ l' = l + 1
